@@ -198,6 +198,27 @@ func (c *Ctx) c08Enforcer(pm *pairModel) {
 		if f := eng.LoadedField(v); f != nil && limitFields[f] {
 			return true
 		}
+		// an integer field of the enforcer's own type that is only ever set where the enforcer
+		// is built (sizeEnforcer.maxSize)
+		if f := eng.LoadedField(v); f != nil && len(E.Params) > 0 {
+			if b, ok := f.Type().Underlying().(*types.Basic); ok && b.Info()&types.IsInteger != 0 && fieldOfRecv(E, f) {
+				sts := eng.StoresToField(pkgFuncs(p, "pkg/storage/mem"), f)
+				onlyInit := len(sts) > 0
+				for _, st := range sts {
+					fa, ok := st.Store.Addr.(*ssa.FieldAddr)
+					if !ok {
+						onlyInit = false
+						continue
+					}
+					if _, fresh := fa.X.(*ssa.Alloc); !fresh {
+						onlyInit = false
+					}
+				}
+				if onlyInit {
+					return true
+				}
+			}
+		}
 		return false
 	}
 	// takesFront: a helper of the enforcer (not the enforcer itself) that takes list.Front()
@@ -788,4 +809,25 @@ func (c *Ctx) c08Cap(pm *pairModel) {
 
 func sortFuncs(fs []*ssa.Function) {
 	sort.Slice(fs, func(i, j int) bool { return eng.FuncName(fs[i]) < eng.FuncName(fs[j]) })
+}
+
+// fieldOfRecv: f is a field of the struct the method fn is declared on.
+func fieldOfRecv(fn *ssa.Function, f *types.Var) bool {
+	if fn.Signature.Recv() == nil {
+		return false
+	}
+	t := fn.Signature.Recv().Type()
+	if pt, ok := t.(*types.Pointer); ok {
+		t = pt.Elem()
+	}
+	st, ok := t.Underlying().(*types.Struct)
+	if !ok {
+		return false
+	}
+	for i := 0; i < st.NumFields(); i++ {
+		if st.Field(i) == f {
+			return true
+		}
+	}
+	return false
 }
